@@ -89,4 +89,27 @@ theorem tie_GetNextBidIdWithUpdate (s : Core) (id : Int) (h0 : 0 ≤ id) :
     · simp [h, GStore.modify, hv]
     · simp [h, GStore.modify, hv]
 
+/-! ### the list-all helpers (`Auctions()` is what `BeginBlocker` iterates over) -/
+
+/-- **Auctions**: every auction record, in id order — the snapshot `BeginBlocker` takes -/
+theorem tie_Auctions (s : Core) :
+    Gen.Auctions (storeOf s) = (s.views.map (·.a), false, storeOf s) := by
+  unfold Gen.Auctions
+  simp only [Auctions.walk1, foldl_append, List.nil_append, GStore.allAuctions, storeOf]
+
+theorem tie_Bids (s : Core) :
+    Gen.Bids (storeOf s) = (s.views.flatMap (·.bids), false, storeOf s) := by
+  unfold Gen.Bids
+  simp only [Bids.walk1, foldl_append, List.nil_append, GStore.allBids, storeOf]
+
+theorem tie_VestingQueues (s : Core) :
+    Gen.VestingQueues (storeOf s) = (s.views.flatMap (·.vqs), false, storeOf s) := by
+  unfold Gen.VestingQueues
+  simp only [VestingQueues.walk1, foldl_append, List.nil_append, GStore.allVqs, storeOf]
+
+theorem tie_AllowedBidders (s : Core) :
+    Gen.AllowedBidders (storeOf s) = (GStore.allAllowed (storeOf s), false, storeOf s) := by
+  unfold Gen.AllowedBidders
+  simp only [AllowedBidders.walk1, foldl_append, List.nil_append]
+
 end Fundraising
